@@ -13,7 +13,7 @@ RULE = ("one seeded tree of DESIGN.md 5.3 (1-4 layers x main-file state per laye
 
 
 def gen_world(rng, i, tier):
-    w = gen.gen_layered_world(rng, i)
+    w = gen.gen_layered_world(rng, i, allow_repeat=True, allow_dotdot=True)
     if gen.name_of(w["read"]) and w["nodes"] and rng.chance(0.2):
         # the tree changes between two reads of the same process: the second read must see the tree as it is then
         files = [k for k, n in enumerate(w["nodes"]) if n["t"] == "f"]
@@ -48,6 +48,17 @@ def mutated_nodes(world):
     else:
         nodes.append({"p": m["path"], "t": "f", "entries": m["entries"], "delim": world["read"]["delim"][0]})
     return nodes
+
+
+def same_sequence(read, seen, consulted):
+    """the processing order.  A directory that is listed twice may be scanned twice, or once at the position
+    that counts (its last): the statement fixes the result, not the number of scans."""
+    if seen == consulted:
+        return True
+    if read.get("repeated_layer"):
+        last = [p for i, p in enumerate(consulted) if p not in consulted[i + 1:]]
+        return seen == last
+    return False
 
 
 def build_plans(world):
@@ -145,12 +156,12 @@ def check(world, plans, results):
     read_idx = [k for k, op in enumerate(plan["ops"]) if op.get("tag") == "read"][0]
     if read.get("cb") and not model["nofile"] and r["rc"] == 0:
         seen = [norm(p) for p, acc, ok in cb_paths(res, read_idx) if tree.is_fileish(norm(p))]
-        if seen != model["consulted"]:
+        if not same_sequence(read, seen, model["consulted"]):
             v.fail("m5:consulted", "files handed to the callback %r differ from the model's consulted list %r" % (seen, model["consulted"]))
     # processing order without callback: the order in which the files were opened
     if not read.get("cb") and not model["nofile"] and r["rc"] == 0:
         opened = [norm(e[3]) for e in res.get("events", []) if e[1] == read_idx and e[2] == "fopen_r" and e[4] == 0 and tree.is_fileish(norm(e[3]))]
-        if opened and opened != model["consulted"]:
+        if opened and not same_sequence(read, opened, model["consulted"]):
             v.fail("m5:consulted", "files were opened in the order %r, the model's consulted list is %r" % (opened, model["consulted"]))
     if world.get("mutation") and tagged(plan, res, "read2") is not None:
         w2 = dict(world, nodes=mutated_nodes(world))
